@@ -214,7 +214,11 @@ func syncGen(r *Rng, tier string, emit func(string)) {
 			h := int(hs) // chain[i] has seq i+1, so chain[h-1] is the head, chain[h] the next block
 			blk := func(seq int) coin.SignedBlock { return chain[seq-1] }
 			var msgs [][]coin.SignedBlock
-			switch r.Intn(5) {
+			pick := r.Intn(5)
+			if h+2 <= len(chain) && r.Chance(40) {
+				pick = 4
+			}
+			switch pick {
 			case 4: // a genuine block arrives too early (refused), later a FORGED copy of it arrives at the right
 				// moment, before the genuine one: having seen the genuine copy once must not vouch for the forgery
 				if h+2 <= len(chain) {
